@@ -571,6 +571,11 @@ pub fn encode_bid(b: &Bid) -> Vec<u8> {
 }
 
 pub fn encode_bid_v2(b: &BidV2, quote_denom_for_fee: &str) -> Vec<u8> {
+    encode_bid_v2_with(b, quote_denom_for_fee, None)
+}
+
+pub fn encode_bid_v2_with(b: &BidV2, quote_denom_for_fee: &str, event_base_denom: Option<&str>) -> Vec<u8> {
+    let ebd = event_base_denom.unwrap_or(&b.base_denom);
     let fee_v = |f: &Option<u128>| match f {
         Some(a) => enc_coin(quote_denom_for_fee, *a),
         None => Value::Null,
@@ -586,11 +591,11 @@ pub fn encode_bid_v2(b: &BidV2, quote_denom_for_fee: &str) -> Vec<u8> {
                     fee,
                     quote,
                     price,
-                } => json!({"Fill": {"base": enc_coin(&b.base_denom, *base), "fee": fee_v(fee), "price": price, "quote": enc_coin(&b.quote_denom, *quote)}}),
+                } => json!({"Fill": {"base": enc_coin(ebd, *base), "fee": fee_v(fee), "price": price, "quote": enc_coin(&b.quote_denom, *quote)}}),
                 Ev::Refund { fee, quote } => {
                     json!({"Refund": {"fee": fee_v(fee), "quote": enc_coin(&b.quote_denom, *quote)}})
                 }
-                Ev::Reject { base, fee, quote } => json!({"Reject": {"base": enc_coin(&b.base_denom, *base), "fee": fee_v(fee), "quote": enc_coin(&b.quote_denom, *quote)}}),
+                Ev::Reject { base, fee, quote } => json!({"Reject": {"base": enc_coin(ebd, *base), "fee": fee_v(fee), "quote": enc_coin(&b.quote_denom, *quote)}}),
             };
             json!({"action": action, "block_info": block})
         })
